@@ -217,4 +217,27 @@ example :
       (cacheTriggeringAncestors (Build.build ops).sims []).toOption.isSome = true := by
   decide
 
+/-- **every run of a scenario without groups ends, and it ends finished** - for every sequence of valid calls in the main group that the
+cycle check accepts: a non-failing run from the initial state (no asynchronous requests) has at most `runBound` actions
+(`terminates`), and a state in which nothing can move and nobody is inside `step` / `get_data` is one in which every process has ended
+(`finished_when_stuck_flat`) - with no hypothesis on the configuration -/
+theorem runs_end_finished_built_flat {ops : List Build.Op} (hv : Build.Valid {} ops) (hf : Build.flatOps ops = true) {orc : List Nat}
+    (hacc : ensureNoCycles (Build.build ops).sims orc = .ok) {orc' : List Nat} {out : List SimCfg}
+    (hc : cacheTriggeringAncestors (Build.build ops).sims orc' = .ok out) (until_ maxLoop : Nat) (lazy_ useCache strict : Bool)
+    (as : List Action) {s : State}
+    (he : exec (Build.runCfg out until_ maxLoop lazy_ useCache strict) (initState (Build.runCfg out until_ maxLoop lazy_ useCache strict)) as = some s)
+    (hnf : s.failed = none) (hsch : ∀ a ∈ as, a.sched) :
+    as.length ≤ runBound (Build.runCfg out until_ maxLoop lazy_ useCache strict) ∧
+    ((∀ p, (step (Build.runCfg out until_ maxLoop lazy_ useCache strict) s (.start p)).isSome = false ∧
+           (step (Build.runCfg out until_ maxLoop lazy_ useCache strict) s (.wake p)).isSome = false ∧
+           (step (Build.runCfg out until_ maxLoop lazy_ useCache strict) s (.deps p)).isSome = false) →
+     (∀ p, p < (Build.runCfg out until_ maxLoop lazy_ useCache strict).n → (s.sims p).pc ≠ .inStep ∧ (s.sims p).pc ≠ .inGet) →
+     ∀ p, p < (Build.runCfg out until_ maxLoop lazy_ useCache strict).n → (s.sims p).pc = .done) := by
+  have hw := Build.run_config_wf_flat hv hf hc until_ maxLoop lazy_ useCache strict
+  have hs := Build.run_config_wfShape hv (Build.flat_uniformT (Build.build_builtOk ops {} Build.builtOk_empty hv) (Build.flatWorld_of_ops hv hf))
+    hc until_ maxLoop lazy_ useCache strict
+  have hfl := Build.run_config_flat hv hf hacc hc until_ maxLoop lazy_ useCache strict
+  exact ⟨terminates hw hs as he hnf hsch,
+    fun hstuck hidle => finished_when_stuck_flat hw hs hfl (exec_reach as Reach.init he) hnf hstuck hidle⟩
+
 end Mosaik.C05
